@@ -1,25 +1,29 @@
 (* ABI entries for C14 *)
 From Coq Require Import List NArith Arith Bool.
 From MDW Require Import Bytes Elf ElfSoname Utf8 AbiBase.
+From MDW Require ElfBE ElfSonameBE.
 Import ListNotations.
 Local Open Scope N_scope.
 
 Definition slice_mem (b : bytes) : memory :=
   {| m_byte := fun a => nth_error b (N.to_nat a); m_size := N.of_nat (length b); m_start := None |}.
 
-(* [bytes...] -> [0; id bytes...] | [1] error | [2] panic | [3] outside the modelled fragment *)
-Definition entry_c14 (args : list N) : list N :=
-  match build_id true (slice_mem args) with
-  | Ok d => 0 :: d | Err => [1] | Panic => [2] | Unspec => [3]
-  end.
+(* the byte order named by EI_DATA selects the copy of the reader model (Elf.v: little-endian, ElfBE.v: big-endian) *)
+Definition is_be (b : bytes) : bool := nth 5 b 0 =? 2.
+Definition be_mem (m : memory) : ElfBE.memory := {| ElfBE.m_byte := m_byte m; ElfBE.m_size := m_size m; ElfBE.m_start := m_start m |}.
+Definition build_id_any (b : bytes) (m : memory) : list N :=
+  if is_be b then match ElfBE.build_id true (be_mem m) with ElfBE.Ok d => 0 :: d | ElfBE.Err => [1] | ElfBE.Panic => [2] | ElfBE.Unspec => [3] end
+  else match build_id true m with Ok d => 0 :: d | Err => [1] | Panic => [2] | Unspec => [3] end.
+Definition soname_any (b : bytes) (m : memory) : list N :=
+  let fin (d : bytes) := match utf8_decode (length d) d with Some _ => 0 :: d | None => [3] end in
+  if is_be b then match ElfSonameBE.soname (be_mem m) with ElfBE.Ok d => fin d | ElfBE.Err => [1] | ElfBE.Panic => [2] | ElfBE.Unspec => [3] end
+  else match soname m with Ok d => fin d | Err => [1] | Panic => [2] | Unspec => [3] end.
 
-(* [bytes...] -> [0; name bytes...] | [1] error | [2] panic | [3] outside the modelled fragment (big-endian image, or
-   a name that is not valid UTF-8: the implementation returns its lossy decoding) *)
-Definition entry_c14_soname (args : list N) : list N :=
-  match soname (slice_mem args) with
-  | Ok d => match utf8_decode (length d) d with Some _ => 0 :: d | None => [3] end
-  | Err => [1] | Panic => [2] | Unspec => [3]
-  end.
+(* [bytes...] -> [0; id bytes...] | [1] error | [2] panic | [3] outside the modelled fragment *)
+Definition entry_c14 (args : list N) : list N := build_id_any args (slice_mem args).
+
+(* [bytes...] -> [0; name bytes...] | [1] error | [2] panic | [3] outside the modelled fragment (a name that is not valid UTF-8: the implementation returns its lossy decoding) *)
+Definition entry_c14_soname (args : list N) : list N := soname_any args (slice_mem args).
 
 (* the same readers on a module read from PROCESS memory: [start; bytes of the mapping...] (nothing mapped beyond) *)
 Definition proc_mem (start : N) (b : bytes) : memory :=
@@ -27,14 +31,12 @@ Definition proc_mem (start : N) (b : bytes) : memory :=
      m_size := 0; m_start := Some start |}.
 Definition entry_c14p (args : list N) : list N :=
   match args with
-  | start :: b => match build_id true (proc_mem start b) with Ok d => 0 :: d | Err => [1] | Panic => [2] | Unspec => [3] end
+  | start :: b => build_id_any b (proc_mem start b)
   | [] => []
   end.
 Definition entry_c14p_soname (args : list N) : list N :=
   match args with
-  | start :: b => match soname (proc_mem start b) with
-                  | Ok d => match utf8_decode (length d) d with Some _ => 0 :: d | None => [3] end
-                  | Err => [1] | Panic => [2] | Unspec => [3] end
+  | start :: b => soname_any b (proc_mem start b)
   | [] => []
   end.
 
